@@ -24,9 +24,11 @@ from core import coqrun
 
 ID = 'C08'
 PROPERTY_FILE = 'C08/Property.v'
-PROPERTY_FILES = ['C08/Property.v', 'C08/Examples.v']      # Examples: non-vacuity, re-checked on the generated layout
+PROPERTY_FILES = ['C08/Property.v', 'C08/Examples.v', 'C08/FloatProperty.v']   # Examples: non-vacuity on the generated layout
+PROPERTY_FILES_NO_GEN = ['C08/FloatProperty.v']          # does not depend on Gen_Layout.v
 LEVEL = 'proof'
-ALLOWED_AXIOMS = ()
+# the integer/byte-level theorems are closed; only the real-number resolution theorems (Flocq) use the reals' axioms
+ALLOWED_AXIOMS = {'C08/Property.v': (), 'C08/Examples.v': (), 'C08/FloatProperty.v': coqrun.REAL_AXIOMS}
 TRUSTED_BASE = [
     'coq/C08/FwLayout.v: hand-written transcription of the firmware packed structs, sign conventions and type-byte '
     'dispatch (firmware source not available offline) and of the documented meaning of each method; this is the '
@@ -583,6 +585,48 @@ def judge(cmd, ver, xm, args, o):
                 cls = 'lh_persist_duplicate_entries' if len(set(lst)) != len(lst) else 'lh_persist_mask_wrong'
             return {'class': cls, 'expected': _show_vals(exp[4]), 'observed': _show_vals(dec[1]),
                     'detail': 'decoded field %d of %s is %r, the caller meant %r' % (i, dec[0], g, _show_vals([e])[0])}
+    if cmd == 'CFullState':
+        f = rate_units_failure(args, dec[1])
+        if f:
+            return f
+    return None
+
+
+def documented_rate_unit():
+    """unit the docstring of send_full_state_setpoint declares for rollrate/pitchrate/yawrate"""
+    import re
+    from cflib.crazyflie.commander import Commander
+    m = re.search(r'rollrate,\s*pitchrate,\s*yawrate\s+are\s+in\s+(\S+)', Commander.send_full_state_setpoint.__doc__ or '')
+    if not m:
+        return None
+    u = m.group(1).lower().rstrip('.')
+    if u.startswith('deg'):
+        return 'deg/s'
+    if u.startswith('rad'):
+        return 'rad/s'
+    return None
+
+
+def rate_units_failure(args, decoded):
+    """The firmware struct (fullStatePacket_s) takes the three rate fields as milliradians per second and converts
+    them to degrees per second (x 180 / (pi * 1000)).  Under the unit the docstring declares, does the firmware end up
+    with the caller's rate?  One field unit (1 mrad/s) of tolerance."""
+    unit = documented_rate_unit()
+    if unit is None:
+        return None
+    rates = args[4:7]
+    fields = decoded[10:13]
+    for name, r, fld in zip(('rollrate', 'pitchrate', 'yawrate'), rates, fields):
+        if not _is_num(r) or r != r or math.isinf(r):
+            continue
+        caller_rad_s = r if unit == 'rad/s' else math.radians(r)
+        if abs(fld - caller_rad_s * 1000) >= 1.0 + 1e-9 * abs(fld):
+            fw_deg = fld * 180.0 / (math.pi * 1000.0)
+            return {'class': 'full_state_rates_documented_in_degrees' if unit == 'deg/s' else 'full_state_rate_unit_mismatch',
+                    'expected': '%s = %r %s reaches the firmware as %r deg/s' % (name, r, unit, math.degrees(caller_rad_s)),
+                    'observed': 'field %d (mrad/s under the firmware layout) = %.3f deg/s' % (fld, fw_deg),
+                    'detail': 'send_full_state_setpoint documents %s in %s but transmits int(%s*1000), which the firmware '
+                              'reads as milliradians/s' % (name, unit, name)}
     return None
 
 
